@@ -81,7 +81,7 @@ def strip(evs):
 def run(tier):
     rep = Report("C03", tier)
     s = seed()
-    n = 1200 if tier == "quick" else 8000
+    n = 1200 if tier == "quick" else common.tscale(8000)
     cases = []
     srcs = {}
     for i in range(n):
